@@ -35,6 +35,8 @@ def cty(t):
         return t["name"]
     if k == "array":
         return f"Array<{cty(t['t'])}>"
+    if k == "span":
+        return f"Span<{cty(t['t'])}>"
     if k == "dict":
         return f"Felt252Dict<{cty(t['t'])}>"
     raise ValueError(k)
@@ -324,7 +326,29 @@ class Gen:
         if r.random() < 0.4:
             ss.append({"k": "expr", "e": {"k": "append", "a": a, "e": self.int_expr(ctx, ty, 0)}})
         lit_idx = lambda: {"k": "lit", "v": r.choice([0, 1, 1, 2, 2, 3]), "ty": "u32"}
-        form = r.choice(["unwrap", "unwrap2", "match", "plain"])
+        form = r.choice(["unwrap", "unwrap2", "match", "plain", "spans", "spans"])
+        if form == "spans" and ty == "u32":
+            # a buffer padded with the same run-time value; spans taken before and after the last appends
+            vs = self.vars_of(ctx, et)
+            pad = {"k": "var", "n": r.choice(vs)[0]} if vs else self.lit(ty)
+            import copy
+            ss = [{"k": "let", "n": a, "mut": True, "ty": {"k": "array", "t": et}, "e": {"k": "arr", "ety": et, "es": []}}]
+            n_app = r.choice([4, 5, 6, 7, 8, 9])
+            for _ in range(n_app - 1):
+                ss.append({"k": "expr", "e": {"k": "append", "a": a, "e": copy.deepcopy(pad)}})
+            s1 = self.fresh(ctx)
+            ss.append({"k": "let", "n": s1, "mut": False, "ty": {"k": "span", "t": et}, "e": {"k": "aspan", "a": a}})
+            ss.append({"k": "expr", "e": {"k": "append", "a": a, "e": copy.deepcopy(pad)}})
+            s2 = self.fresh(ctx)
+            ss.append({"k": "let", "n": s2, "mut": False, "ty": {"k": "span", "t": et}, "e": {"k": "aspan", "a": a}})
+            obs = r.choice([
+                {"k": "bin", "op": "add", "ty": "u32", "l": {"k": "bin", "op": "mul", "ty": "u32", "l": {"k": "slen", "s": s1}, "r": {"k": "lit", "v": 100, "ty": "u32"}}, "r": {"k": "slen", "s": s2}},
+                {"k": "bin", "op": "add", "ty": "u32", "l": {"k": "sat", "s": s2, "i": {"k": "lit", "v": n_app - 1, "ty": "u32"}}, "r": {"k": "slen", "s": s1}},
+                {"k": "sat", "s": s1, "i": {"k": "lit", "v": n_app - 1, "ty": "u32"}},
+            ])
+            return {"k": "block", "ss": ss, "tail": obs}
+        if form == "spans":
+            form = "unwrap"
         if form in ("unwrap", "unwrap2"):
             p1 = self.fresh(ctx)
             ss.append({"k": "let", "n": p1, "mut": False, "ty": et,
@@ -734,6 +758,12 @@ def src(e):
         return f"{e['a']}.append({src(e['e'])})"
     if k == "apop":
         return f"{e['a']}.pop_front()"
+    if k == "aspan":
+        return f"{e['a']}.span()"
+    if k == "slen":
+        return f"{e['s']}.len()"
+    if k == "sat":
+        return f"(*{e['s']}.at({src(e['i'])}))"
     if k == "dnew":
         return "Default::default()"
     if k == "dget":
